@@ -212,10 +212,11 @@ theorem entry_points_present :
 open Midgard.ObjCache.Table in
 /-- the other in-place routes that can be intercepted are intercepted (5ae18f6): the ndarray methods `fill`, `sort`, `partition`,
 `put`, `setfield`, `byteswap` are overridden on `PosBase` and `__array_wrap__` (called by NumPy on the `out=` array of a ufunc)
-drops the caches when the array wrapped is the array itself — each of them clears first (`every_writer_clears`); removing one of
+drops the caches when the array wrapped is the array itself, `__array_function__` (4d1546d) does so for the array a NumPy function wrote
+into (`np.copyto`, `np.place`, `np.putmask`, `out=`) — each of them clears (`every_writer_clears`: for the two hooks, the written array) (`every_writer_clears`); removing one of
 the overrides is a failed obligation here -/
 theorem inplace_routes_intercepted :
-    ∀ m ∈ ["__array_wrap__", "fill", "sort", "partition", "put", "setfield", "byteswap"],
+    ∀ m ∈ ["__array_wrap__", "__array_function__", "fill", "sort", "partition", "put", "setfield", "byteswap"],
       (⟨"PosBase", m, true⟩ : Mutator) ∈ Generated.CacheMech.mutators := by decide
 
 open Midgard.ObjCache.Table in
